@@ -21,7 +21,7 @@ def run(ctx):
         raise vlib.CheckError("harness build failed:\n" + log[-3000:])
     big = ctx.tier == "thorough"
     args = ["-seed", ctx.seed, "-loop", 40000 if big else 2500, "-watch", 4000 if big else 250,
-            "-e2e", 2400 if big else 130, "-corpus", os.path.join(vlib.ROOT, "corpus", "c08.tsv")]
+            "-e2e", 1500 if big else 130, "-stall", 300 if big else 40, "-corpus", os.path.join(vlib.ROOT, "corpus", "c08.tsv")]
     res = vlib.run_pipeline(ctx, exe, args, mcheck, timeout=1500)
     cross_check_in_coq(ctx, 1500 if big else 250)
     vlib.judge(ctx, res, "Handler.v/Watch2.v/Gen.Tables <-> gNMI Set, admin RollbackTransaction, transaction store Watch")
@@ -39,7 +39,8 @@ def run(ctx):
                       "opened in the middle of interleaved writes to two transactions; h.e2e: the real handlers over real stores, real "
                       "controllers, gRPC devices and plugin, the handler's store decorated so that none/some/all phases complete "
                       "between Create and Watch (sync/async, success, plugin rejection, 12 device error codes, retried codes, "
-                      "offline target, rollback ok / missing / not latest / of a rollback / refused by the device); h.status: "
+                      "offline target, rollback ok / missing / not latest / of a rollback / refused by the device); h.stall: after a real Set "
+                      "returned and its context was cancelled, does the real store still deliver events to a new watcher; h.status: "
                       "errors.Status of every constructor. distinct = distinct (inputs, delivered events) tuples; trivial cases "
                       "(single-event streams) are about 4% of them")
     ctx.trusted = vlib.STD_TRUSTED + [
